@@ -46,6 +46,7 @@ CHECKS = {
     },
     "C03": {
         "level": "model_checking",
+        "needs_py": True,
         "technique": "bounded-exhaustive range enumeration plus explicit enumeration of all query histories up to a depth on one reader instance (real code), each answer compared with a reference",
         "rule": "exhaustive: files from WL(k) x 6 (items_per_slot, block_size, compression) sets and multi-chromosome core files x all 153 ranges x 7 access paths (plain, cached, reopened, cached+reopened, by-value iterator, values() plain and cached); all query histories of length d over a boundary-focused alphabet on one plain and one caching reader instance; one 5003-block scenario crossing the cache reset. states = distinct answer vectors, transitions = queries applied in histories. non-trivial = >=2 items",
         "require": ["range_files", "files_with_2+_blocks", "files_with_2+_index_levels", "histories", "cache_reset_scenarios"],
@@ -55,6 +56,7 @@ CHECKS = {
     "C04": {
         "level": "model_checking",
         "needs_cli": True,
+        "needs_py": True,
         "technique": "bounded-exhaustive range enumeration plus explicit enumeration of all query histories up to a depth on one reader instance (real code), each answer compared with a must-include / must-exclude reference",
         "rule": "exhaustive: BL(k) layouts (quick: those where an earlier entry ends after a later one) x (items_per_slot 1..3, block_size 2..3) x all 136 ranges x 4 access paths, multi-chromosome core files, and all query histories of length d on plain and caching readers. Oracle: every entry with positive overlap returned once in stored order, none wholly outside; touching entries don't-care. non-trivial = >=2 entries",
         "require": ["range_files", "files_with_2+_blocks", "files_with_2+_index_levels", "files_with_block_max_end_not_last", "histories", "tool_range_runs"],
